@@ -82,7 +82,9 @@ pub fn uncompact(cells: &[u64], target_resolution: i32) -> Result<Vec<u64>, Stri
         let num_children = get_num_children(resolution, target_resolution);
 
         if num_children == 1 {
-            result.push(cell);
+            // Same resolution: re-encode, so that a non-canonical alias is returned in canonical
+            // form and a bit pattern that is not a cell is rejected
+            result.push(cell_to_parent(cell, Some(target_resolution))?);
         } else {
             let children = cell_to_children(cell, Some(target_resolution))?;
             result.extend(children);
